@@ -1,4 +1,4 @@
-// @unit id=v_recv props=C03,C09,C13,C01,C04,C06,C07,C08,C14,C15,C17,C18 tier=quick rlimit=60
+// @unit id=v_recv props=C03,C09,C13,C01,C04,C05,C06,C07,C08,C14,C15,C17,C18 tier=quick rlimit=60
 // Verus contracts on the real bodies of src/proto/streams/recv.rs, extracted on every run.
 //   level (connection or stream) = (window, available, in_flight):  window = credit the peer still has,
 //   available = window + released-but-unannounced, in_flight = handed out and not released.
@@ -37,6 +37,16 @@ impl QueueWindowUpdate {
                     && wf_stream_level(s.recv_flow, s.in_flight_recv_data as int) && final(store).held() == old(store).held() + 1,
                 None => old(self).ghost_len == 0 && *final(self) == *old(self) && final(store).held() == old(store).held(),
             },
+    { unimplemented!() }
+}
+
+/// store::Queue<NextAccept>: streams a server application has not accepted yet
+pub struct QueueAccept { pub ghost_len: usize }
+impl QueueAccept {
+    #[verifier::external_body]
+    pub fn push(&mut self, stream: &mut Stream) -> (r: bool)
+        ensures *final(stream) == (Stream { is_pending_accept: true, ..*old(stream) }),
+            final(self).ghost_len == old(self).ghost_len + (if old(stream).is_pending_accept { 0int } else { 1int }),
     { unimplemented!() }
 }
 
@@ -170,9 +180,26 @@ pub struct Counts {
     pub charged: Ghost<Seq<usize>>,
     /// ghost: the arguments of every Counts::release_data_frame call so far (what was credited back to the budget)
     pub released: Ghost<Seq<usize>>,
+    /// ghost: number of streams admitted against the receive concurrency limit by Recv::recv_headers
+    pub admitted: Ghost<int>,
     pub tag: u8,
 }
 impl Counts {
+    /// Counts::{peer, can_inc_num_recv_streams, inc_num_recv_streams} (real bodies: unit v_counts)
+    pub uninterp spec fn is_server_spec(self) -> bool;
+    pub uninterp spec fn recv_slot_free(self) -> bool;
+    #[verifier::external_body]
+    pub fn peer(&self) -> (r: PeerDyn) ensures (r matches PeerDyn::Server) == self.is_server_spec() { unimplemented!() }
+    #[verifier::external_body]
+    pub fn can_inc_num_recv_streams(&self) -> (r: bool) ensures r == self.recv_slot_free() { unimplemented!() }
+    #[verifier::external_body]
+    pub fn inc_num_recv_streams(&mut self, stream: &mut Stream)
+        requires old(self).recv_slot_free(), !old(stream).is_counted,      // the two real assert!s
+        ensures *final(stream) == (Stream { is_counted: true, ..*old(stream) }),
+            final(self).charged@ == old(self).charged@ && final(self).released@ == old(self).released@ && final(self).is_server_spec() == old(self).is_server_spec()
+            && final(self).admitted@ == old(self).admitted@ + 1,
+    { unimplemented!() }
+
     /// Counts::record_data_frame (real body: Kani unit counts_data_frame_budget): logs what it is charged with.
     #[verifier::external_body]
     pub fn record_data_frame(&mut self, payload_len: usize) -> (r: Result<(), BudgetExhausted>)
@@ -227,6 +254,7 @@ pub struct Recv {
     pub refused: Option<StreamId>,
     pub is_push_enabled: bool,
     pub is_extended_connect_protocol_enabled: bool,
+    pub pending_accept: QueueAccept,
 }
 
 /// A received DATA frame, reduced: payload length and padding (frame::Data<Bytes> in /repo; `flow_controlled_len`
@@ -463,6 +491,91 @@ impl Recv {
     //@spec             r is Ok && final(stream).pending_recv@ == old(stream).pending_recv@.push(Event::Trailers(frame.fields))
     //@spec             && *final(stream) == (Stream { state: final(stream).state, pending_recv: final(stream).pending_recv, recv_task: None, ..*old(stream) })
     //@spec             && final(stream).state.inner == old(stream).state.after_recv_end_stream()->Some_0,
+    //@end
+
+    // C05 / C13 / C15 / C18 / C01 / C09: HEADERS that start or answer a message on `stream` (the dispatch layer has already decided
+    // that these are not trailers).
+    //   * the state machine decides first (illegal => connection PROTOCOL_ERROR, nothing else happens);
+    //   * C05: a stream that becomes active here (peer-initiated, or a promised stream now being answered) and is not counted
+    //     yet is admitted only while a slot is free — otherwise REFUSED_STREAM for it and no counter moves; an admitted stream
+    //     is counted exactly once and raises last_processed_id (the id our GOAWAY will name: C15) to its id if larger;
+    //   * C13: a content-length that does not parse, or END_STREAM together with a non-zero content-length (unless the
+    //     response is 204 / 304), is a stream PROTOCOL_ERROR and NOTHING is delivered; otherwise the expected length is recorded;
+    //   * C18: a field section above our SETTINGS_MAX_HEADER_LIST_SIZE is not delivered: a server answers an initial request
+    //     with 431 (END_STREAM), everything else is reported as over-size without an answer;
+    //   * `:protocol` without extended CONNECT enabled, `:status` on a request: stream PROTOCOL_ERROR, nothing delivered;
+    //   * otherwise convert_poll_message decides (its error is returned unchanged, nothing delivered); on success EXACTLY ONE
+    //     event — Headers, or InformationalHeaders for 1xx — is appended BEHIND everything queued, the reader is woken, and a
+    //     server puts the stream on the accept queue (only for a final header section: the request).
+    // Listed substitutions: the frame accessors of the reduced RHeaders; `?` with its From conversion into
+    // RecvHeaderBlockError::State written out; `.into()` of a proto::Error => RecvHeaderBlockError::State(..); the `map_or`
+    // closure on the status written out as a match; the 431 response literal => RHeaders::response_431.
+    //@extract src/proto/streams/recv.rs Recv::recv_headers
+    //@subst_re pub fn recv_headers\(\s*&mut self,\s*frame: frame::Headers,\s*stream: &mut store::Ptr,\s*counts: &mut Counts,\s*\) -> Result<\(\), RecvHeaderBlockError<Option<frame::Headers>>>=>pub fn recv_headers(&mut self, frame: RHeaders, stream: &mut Stream, counts: &mut Counts) -> Result<(), RecvHeaderBlockError>
+    //@subst let is_initial = stream.state.recv_open(&frame)?;=>let is_initial = match stream.state.recv_open(&frame) { Ok(b) => b, Err(e) => { return Err(RecvHeaderBlockError::State(e)); } };
+    //@subst_re return Err\(Error::library_reset\(stream\.id, Reason::(\w+)\)\.into\(\)\);=>return Err(RecvHeaderBlockError::State(Error::library_reset(stream.id, Reason::\1)));
+    //@subst_opt_re frame\.stream_id\(\) > self\.last_processed_id ==>> frame.stream_id().0 > self.last_processed_id.0
+    //@subst_re use super::stream::ContentLength;\s*use http::header;=>
+    //@subst if let Some(content_length) = frame.fields().get(header::CONTENT_LENGTH) {=>if let Some(content_length) = frame.content_length_field() {
+    //@subst frame::parse_u64(content_length.as_bytes())=>parse_u64_model(content_length)
+    //@subst_re && frame\s*\.pseudo\(\)\s*\.status\s*\.map_or\(true, \|status\| ([^)]*)\) ==>> && (match frame.pseudo_status() { None => true, Some(status) => \1 })
+    //@subst_re let mut res = frame::Headers::new\(\s*stream\.id,\s*frame::Pseudo::response\(::http::StatusCode::REQUEST_HEADER_FIELDS_TOO_LARGE\),\s*HeaderMap::new\(\),\s*\);\s*res\.set_end_stream\(\);=>let res = RHeaders::response_431(stream.id);
+    //@subst let (pseudo, fields) = frame.into_parts();=>let pseudo = frame.pseudo_view();
+    //@subst_re let message = counts\s*\.peer\(\)\s*\.convert_poll_message\(pseudo, fields, stream_id\)\?; ==>> let message = match convert_poll_message_model(counts.peer(), frame) { Ok(m) => m, Err(e) => { return Err(RecvHeaderBlockError::State(e)); } };
+    //@ret r
+    //@spec     ensures
+    //@spec         final(stream).id == old(stream).id && final(stream).key == old(stream).key,
+    //@spec         match recv_headers_outcome(*old(self), *old(stream), *old(counts), frame) {
+    //@spec             HOut::Illegal => (r matches Err(RecvHeaderBlockError::State(e)) && e == Error::GoAway(Reason::PROTOCOL_ERROR, Initiator::Library))
+    //@spec                 && *final(stream) == *old(stream) && *final(self) == *old(self) && final(counts).admitted@ == old(counts).admitted@,
+    //@spec             HOut::Refused => (r matches Err(RecvHeaderBlockError::State(e)) && e == Error::Reset(old(stream).id, Reason::REFUSED_STREAM, Initiator::Library))
+    //@spec                 && final(counts).admitted@ == old(counts).admitted@ && !final(stream).is_counted && final(stream).pending_recv@ == old(stream).pending_recv@
+    //@spec                 && final(self).last_processed_id == old(self).last_processed_id,
+    //@spec             HOut::Malformed => (r matches Err(RecvHeaderBlockError::State(e)) && e == Error::Reset(old(stream).id, Reason::PROTOCOL_ERROR, Initiator::Library))
+    //@spec                 && final(stream).pending_recv@ == old(stream).pending_recv@ && !final(stream).is_pending_accept == !old(stream).is_pending_accept,
+    //@spec             HOut::Oversize(answer) => (r matches Err(RecvHeaderBlockError::Oversize(a)) && (a is Some) == answer && (a matches Some(h) ==> h == (RHeaders { stream_id: old(stream).id, eos: true, over_size: false, content_length: None, status: Some(431u16), protocol: false, tag: 0 })))
+    //@spec                 && final(stream).pending_recv@ == old(stream).pending_recv@,
+    //@spec             HOut::ConvertFailed(e0) => (r matches Err(RecvHeaderBlockError::State(e)) && e == e0) && final(stream).pending_recv@ == old(stream).pending_recv@,
+    //@spec             HOut::Delivered(ev) => r is Ok && final(stream).pending_recv@ == old(stream).pending_recv@.push(ev) && final(stream).recv_task is None
+    //@spec                 // a server queues the REQUEST for accept; an informational response never is
+    //@spec                 && (final(stream).is_pending_accept == (old(stream).is_pending_accept || (old(counts).is_server_spec() && !informational(frame.status)))),
+    //@spec         },
+    //@spec         // C05 / C15: admission and the last processed id move together, exactly when a not-yet-counted stream becomes active
+    //@spec         (!(recv_headers_outcome(*old(self), *old(stream), *old(counts), frame) is Illegal) && !(recv_headers_outcome(*old(self), *old(stream), *old(counts), frame) is Refused)) ==> (
+    //@spec             if becomes_active(*old(stream)) && !old(stream).is_counted {
+    //@spec                 final(counts).admitted@ == old(counts).admitted@ + 1 && final(stream).is_counted
+    //@spec                 && final(self).last_processed_id.0 == (if frame.stream_id.0 > old(self).last_processed_id.0 { frame.stream_id.0 } else { old(self).last_processed_id.0 })
+    //@spec             } else {
+    //@spec                 final(counts).admitted@ == old(counts).admitted@ && final(stream).is_counted == old(stream).is_counted && final(self).last_processed_id == old(self).last_processed_id
+    //@spec             }),
+    //@end
+
+    // C13 / C09 / C04 / C01: the PUSH_PROMISE for a freshly created promised stream.  The stream must be idle (=> reserved
+    // (remote)), else connection PROTOCOL_ERROR; a field section above SETTINGS_MAX_HEADER_LIST_SIZE, a promised request that
+    // is not a well-formed request (convert_poll_message: pseudo-header rules, C13) or that is not safe / cacheable / carries
+    // a non-zero content-length (validate_request, RFC 9113 8.4) => nothing is delivered and the PROMISED stream is reset with
+    // PROTOCOL_ERROR; otherwise exactly one Headers event with that request is queued and both waiters are woken.
+    // Listed substitutions: the frame and request are opaque tokens; `frame.into_parts()` + `server::Peer::convert_poll_message`
+    // => `pp_convert(frame)`; `frame::PushPromise::validate_request(&req)` => `pp_validate(req)`; the `match e { .. proto_err! .. }`
+    // that only logs is dropped with its macros (R1).
+    //@extract src/proto/streams/recv.rs Recv::recv_push_promise
+    //@subst frame: frame::PushPromise,=>frame: RPushPromise,
+    //@subst stream: &mut store::Ptr,=>stream: &mut Stream,
+    //@subst_re let \(pseudo, fields\) = frame\.into_parts\(\);\s*let req = crate::server::Peer::convert_poll_message\(pseudo, fields, promised_id\)\?;=>let req = pp_convert(frame)?;
+    //@subst_re if let Err\(e\) = frame::PushPromise::validate_request\(&req\) \{\s*use PushPromiseHeaderError::\*;\s*match e \{.*?\}=>if let Err(e) = pp_validate(req) {
+    //@subst use super::peer::PollMessage::*;=>
+    //@subst Event::Headers(Server(req))=>Event::Headers(PollMessage::Server(req))
+    //@ret r
+    //@spec     ensures
+    //@spec         *final(self) == (Recv { buffer: final(self).buffer, ..*old(self) }),
+    //@spec         !(old(stream).state.inner is Idle) ==> r == Err::<(), Error>(Error::GoAway(Reason::PROTOCOL_ERROR, Initiator::Library)) && *final(stream) == *old(stream),
+    //@spec         old(stream).state.inner is Idle ==> (match pp_outcome(frame) {
+    //@spec             // delivered: exactly one Headers event with the promised request, behind nothing (the stream is new), waiters woken
+    //@spec             Ok(req) => r is Ok && final(stream).pending_recv@ == old(stream).pending_recv@.push(Event::Headers(PollMessage::Server(req)))
+    //@spec                 && *final(stream) == (Stream { state: final(stream).state, pending_recv: final(stream).pending_recv, recv_task: None, push_task: None, ..*old(stream) }),
+    //@spec             // refused: nothing is delivered; the error names the PROMISED stream (or is what convert_poll_message reported)
+    //@spec             Err(e) => r == Err::<(), Error>(e) && final(stream).pending_recv@ == old(stream).pending_recv@,
+    //@spec         }) && final(stream).state.inner is ReservedRemote,
     //@end
 
     // ---- announcing credit (C03: every credit the application released is announced exactly once, by a WINDOW_UPDATE that
@@ -772,6 +885,144 @@ impl Recv {
     //@spec         r is Ok ==> final(store).held() == old(store).held(),
     //@spec         final(self).flow == old(self).flow && final(self).in_flight_data == old(self).in_flight_data,
     //@end
+}
+
+/// frame::PushPromise as Recv sees it: ids, the over-size mark of the decoded block, the rest opaque
+#[derive(Clone, Copy, Debug)]
+pub struct RPushPromise { pub stream_id: StreamId, pub promised_id: StreamId, pub over_size: bool, pub tag: u8 }
+impl RPushPromise {
+    pub fn promised_id(&self) -> (r: StreamId) ensures r == self.promised_id { self.promised_id }
+    pub fn stream_id(&self) -> (r: StreamId) ensures r == self.stream_id { self.stream_id }
+    pub fn is_over_size(&self) -> (r: bool) ensures r == self.over_size { self.over_size }
+}
+/// `frame.into_parts()` + server::Peer::convert_poll_message(pseudo, fields, promised_id): the promised request, or the
+/// stream error (on the promised id) for a malformed one — Kani unit server_convert_poll_message_shapes
+pub uninterp spec fn pp_converted(frame: RPushPromise) -> Result<u8, Error>;
+#[verifier::external_body]
+pub fn pp_convert(frame: RPushPromise) -> (r: Result<u8, Error>)
+    ensures r == pp_converted(frame),
+{ unimplemented!() }
+/// frame::PushPromise::validate_request: safe + cacheable method, no non-zero content-length (RFC 9113 8.4)
+pub uninterp spec fn pp_valid(req: u8) -> bool;
+#[verifier::external_body]
+pub fn pp_validate(req: u8) -> (r: Result<(), u8>)
+    ensures r is Ok == pp_valid(req),
+{ unimplemented!() }
+
+/// what becomes of a PUSH_PROMISE on an idle promised stream
+pub open spec fn pp_outcome(frame: RPushPromise) -> Result<u8, Error> {
+    if frame.over_size { Err(Error::Reset(frame.promised_id, Reason::PROTOCOL_ERROR, Initiator::Library)) }
+    else {
+        match pp_converted(frame) {
+            Err(e) => Err(e),
+            Ok(req) => if pp_valid(req) { Ok(req) } else { Err(Error::Reset(frame.promised_id, Reason::PROTOCOL_ERROR, Initiator::Library)) },
+        }
+    }
+}
+
+/// A received HEADERS frame that opens or answers a stream, reduced to what Recv::recv_headers looks at: END_STREAM, the
+/// over-size mark of the decoded block, the content-length field (if any: an opaque value whose parse result is a spec
+/// function — frame::parse_u64 is the Kani unit frame_parse_u64*), the :status (if any), whether :protocol is present; the
+/// rest is the opaque `tag`.
+#[derive(Clone, Copy, Debug)]
+pub struct RHeaders { pub stream_id: StreamId, pub eos: bool, pub over_size: bool, pub content_length: Option<u8>, pub status: Option<u16>, pub protocol: bool, pub tag: u8 }
+#[derive(Clone, Copy, Debug)]
+pub struct PseudoM { pub status: Option<u16>, pub protocol: Option<u8> }
+pub open spec fn informational(status: Option<u16>) -> bool { status matches Some(c) && 100 <= c < 200 }
+impl PseudoM {
+    /// Pseudo::is_informational: `self.status.map_or(false, |status| status.is_informational())`
+    pub fn is_informational(&self) -> (r: bool) ensures r == informational(self.status) { match self.status { Some(c) => 100 <= c && c < 200, None => false } }
+}
+impl RHeaders {
+    pub fn stream_id(&self) -> (r: StreamId) ensures r == self.stream_id { self.stream_id }
+    pub fn is_end_stream(&self) -> (r: bool) ensures r == self.eos { self.eos }
+    pub fn is_over_size(&self) -> (r: bool) ensures r == self.over_size { self.over_size }
+    /// Headers::is_informational
+    pub fn is_informational(&self) -> (r: bool) ensures r == informational(self.status) { match self.status { Some(c) => 100 <= c && c < 200, None => false } }
+    /// `frame.fields().get(header::CONTENT_LENGTH)`
+    pub fn content_length_field(&self) -> (r: Option<u8>) ensures r == self.content_length { self.content_length }
+    /// `frame.pseudo().status`
+    pub fn pseudo_status(&self) -> (r: Option<u16>) ensures r == self.status { self.status }
+    /// `frame.into_parts()`, pseudo part
+    pub fn pseudo_view(&self) -> (r: PseudoM) ensures r.status == self.status && (r.protocol is Some) == self.protocol
+    { PseudoM { status: self.status, protocol: if self.protocol { Some(0) } else { None } } }
+    /// the 431 answer to an over-size request: `Headers::new(id, Pseudo::response(431), HeaderMap::new())` + `set_end_stream()`
+    pub fn response_431(id: StreamId) -> (r: RHeaders)
+        ensures r == (RHeaders { stream_id: id, eos: true, over_size: false, content_length: None, status: Some(431), protocol: false, tag: 0 })
+    { RHeaders { stream_id: id, eos: true, over_size: false, content_length: None, status: Some(431), protocol: false, tag: 0 } }
+}
+/// frame::parse_u64(value.as_bytes()) on the opaque content-length value
+pub uninterp spec fn cl_parsed(v: u8) -> Option<u64>;
+#[verifier::external_body]
+pub fn parse_u64_model(v: u8) -> (r: Result<u64, ()>)
+    ensures match cl_parsed(v) { Some(n) => r == Ok::<u64, ()>(n), None => r is Err },
+{ unimplemented!() }
+/// peer::Dyn::convert_poll_message(pseudo, fields, stream_id) (client.rs / server.rs: Kani units *_convert_poll_message_*):
+/// the message handed to the application, or a stream error for a malformed one
+pub uninterp spec fn converted(server: bool, frame: RHeaders) -> Result<PollMessage, Error>;
+#[verifier::external_body]
+pub fn convert_poll_message_model(peer: PeerDyn, frame: RHeaders) -> (r: Result<PollMessage, Error>)
+    ensures r == converted(peer matches PeerDyn::Server, frame),
+{ unimplemented!() }
+
+pub enum RecvHeaderBlockError { Oversize(Option<RHeaders>), State(Error) }
+
+impl ContentLength {
+    //@extract src/proto/streams/stream.rs ContentLength::is_head
+    //@ret r
+    //@spec     ensures r == (*self is Head),
+    //@end
+}
+
+impl PeerDyn {
+    pub fn is_server(&self) -> (r: bool) ensures r == (*self matches PeerDyn::Server) { match self { PeerDyn::Server => true, PeerDyn::Client => false } }
+}
+
+impl State {
+    /// RFC 9113 5.1, receiving HEADERS that start or answer a message: the successor state, None = illegal
+    pub open spec fn after_recv_open(self, eos: bool, info: bool) -> Option<Inner> {
+        match self.inner {
+            Inner::Idle => Some(if eos { Inner::HalfClosedRemote(Peer::AwaitingHeaders) } else { Inner::Open { local: Peer::AwaitingHeaders, remote: if info { Peer::AwaitingHeaders } else { Peer::Streaming } } }),
+            Inner::ReservedRemote => Some(if eos { Inner::Closed(Cause::EndStream) } else if info { Inner::ReservedRemote } else { Inner::HalfClosedLocal(Peer::Streaming) }),
+            Inner::Open { local, remote: Peer::AwaitingHeaders } => Some(if eos { Inner::HalfClosedRemote(local) } else { Inner::Open { local, remote: if info { Peer::AwaitingHeaders } else { Peer::Streaming } } }),
+            Inner::HalfClosedLocal(Peer::AwaitingHeaders) => Some(if eos { Inner::Closed(Cause::EndStream) } else if info { Inner::HalfClosedLocal(Peer::AwaitingHeaders) } else { Inner::HalfClosedLocal(Peer::Streaming) }),
+            _ => None,
+        }
+    }
+
+    //@extract src/proto/streams/state.rs State::recv_open
+    //@subst frame: &frame::Headers=>frame: &RHeaders
+    //@subst ref state => { ==>> _ => {
+    //@ret r
+    //@spec     ensures
+    //@spec         old(self).after_recv_open(frame.eos, informational(frame.status)) matches Some(n) ==> final(self).inner == n
+    //@spec             && r == Ok::<bool, Error>((old(self).inner is Idle) || (old(self).inner is ReservedRemote)),
+    //@spec         old(self).after_recv_open(frame.eos, informational(frame.status)) is None ==> r == Err::<bool, Error>(Error::GoAway(Reason::PROTOCOL_ERROR, Initiator::Library)) && final(self).inner == old(self).inner,
+    //@end
+}
+
+/// HEADERS starting a message on a stream that was idle or reserved(remote): the stream becomes active now
+pub open spec fn becomes_active(s: Stream) -> bool { (s.state.inner is Idle) || (s.state.inner is ReservedRemote) }
+
+pub enum HOut { Illegal, Refused, Malformed, Oversize(bool), ConvertFailed(Error), Delivered(Event) }
+
+/// what Recv::recv_headers must make of a frame — the decision list of RFC 9113 8.1 / 8.1.1 / 8.3 / 8.5 / 5.1.2 / 6.5.2 in
+/// the order h2 applies it
+pub open spec fn recv_headers_outcome(me: Recv, s: Stream, c: Counts, f: RHeaders) -> HOut {
+    let info = informational(f.status);
+    if s.state.after_recv_open(f.eos, info) is None { HOut::Illegal }
+    else if becomes_active(s) && !s.is_counted && !c.recv_slot_free() { HOut::Refused }
+    else if !(s.content_length is Head) && (f.content_length matches Some(v) && cl_parsed(v) is None) { HOut::Malformed }
+    else if !(s.content_length is Head) && (f.content_length matches Some(v) && (cl_parsed(v) matches Some(n) && n > 0 && f.eos && !(f.status == Some(204u16) || f.status == Some(304u16)))) { HOut::Malformed }
+    else if f.over_size { HOut::Oversize(c.is_server_spec() && becomes_active(s)) }
+    else if f.protocol && c.is_server_spec() && !me.is_extended_connect_protocol_enabled { HOut::Malformed }
+    else if f.status is Some && c.is_server_spec() { HOut::Malformed }
+    else {
+        match converted(c.is_server_spec(), f) {
+            Err(e) => HOut::ConvertFailed(e),
+            Ok(m) => HOut::Delivered(if info { Event::InformationalHeaders(m) } else { Event::Headers(m) }),
+        }
+    }
 }
 
 // ---------------------------------------------------------------- streams.rs: the dispatch layer above Recv
